@@ -235,8 +235,7 @@ fn c19_calibrate(seed: u64, replay_dir: &Path) -> Result<Value, i32> {
     let r = c19::calib::calibrate(&root);
     let _ = std::fs::remove_dir_all(&root);
     match r {
-        Err(e) => harness_error(&format!("TTL calibration: {e}")),
-        Ok(Err(detail)) => {
+        Err(detail) => {
             let _ = std::fs::create_dir_all(replay_dir);
             let path = replay_dir.join(format!("C19-{seed}-calibration.json"));
             let _ = std::fs::write(
@@ -252,8 +251,8 @@ fn c19_calibrate(seed: u64, replay_dir: &Path) -> Result<Value, i32> {
             println!("VIOLATION property=C19 replay={}", path.display());
             Err(1)
         }
-        Ok(Ok(ms)) => {
-            for m in &ms {
+        Ok(c) => {
+            for m in &c.measured {
                 println!(
                     "measured time-to-live ({}): zones re-read after {:.9}s, names refreshed after {:.9}s",
                     m.backend,
@@ -261,11 +260,16 @@ fn c19_calibrate(seed: u64, replay_dir: &Path) -> Result<Value, i32> {
                     m.names_refresh_after_ns as f64 / 1e9
                 );
             }
-            Ok(json!(ms
-                .iter()
-                .map(|m| json!({"backend": m.backend, "zone_refresh_after_ns": m.zone_refresh_after_ns,
-                                "names_refresh_after_ns": m.names_refresh_after_ns, "oracle_ttl_ns": m.ttl_ns}))
-                .collect::<Vec<_>>()))
+            for n in &c.notes {
+                println!("{n}");
+            }
+            Ok(json!({
+                "measured": c.measured.iter()
+                    .map(|m| json!({"backend": m.backend, "zone_refresh_after_ns": m.zone_refresh_after_ns,
+                                    "names_refresh_after_ns": m.names_refresh_after_ns, "oracle_ttl_ns": m.ttl_ns}))
+                    .collect::<Vec<_>>(),
+                "notes": c.notes,
+            }))
         }
     }
 }
